@@ -154,8 +154,8 @@ def run_real(case_):
 
 
 FAMILIES = [
-    Family('permuted-declarations', case, run, quick=256, thorough=8000),
-    Family('real-solver', real_case, run_real, quick=160, thorough=4000),
+    Family('permuted-declarations', case, run, quick=480, thorough=8000),
+    Family('real-solver', real_case, run_real, quick=256, thorough=4000),
 ]
 
 MANIFEST_INFO = {
